@@ -81,7 +81,7 @@ for _name, _tgt, _var, _bad in (
         props=["C01"],
         params={"self": "obj:TextXVisitor", "modifiers": "any", _var: "obj", "op": "any", "repeat_op": "any"},
         requires=["implies(truthy(modifiers), modifiers == (modifiers[0], modifiers[1]) and is_ref(modifiers[0])"
-                  f" and cls(modifiers[0]) == dict and modifiers[0] != {_var})",
+                  f" and modifiers[0] != {_var})",
                   f"distinct(self, {_var})"],
         calls={"self.grammar_parser.pos_to_linecol": Ext("pos_to_linecol", returns="tuple", raises=None, pure=True,
                                                          ensures=["result == (result[0], result[1])"]),
@@ -111,7 +111,7 @@ Unit(
     region="body:for:obj.__class__._tx_attrs.values()",
     props=["C01", "C02"],
     params={"self": "obj:TextXMetaModel", "obj": "obj", "attr": "obj:MetaAttr"},
-    requires=["distinct(self, obj, attr)", "is_str(attr.cls.__name__)", "is_bool_attr(attr)" if False else "True"],
+    requires=["distinct(self, obj, attr)", "is_str(attr.cls.__name__)"],
     calls={"python_type": Ext("python_type", pure=True, raises=None, note="lang.python_type: the Python type of a base type name"),
            "python_type(attr.cls.__name__)": Ext("default_ctor", pure=True, raises=None,
                                                  note="calling the Python type gives its default value (0, 0.0, '', False)")},
@@ -123,10 +123,6 @@ Unit(
          " or n_calls('default_ctor') == 1)"),
         ("C01-base-type-defaults",
          "implies(not (attr.mult == '0..*' or attr.mult == '1..*') and n_calls('default_ctor') == 0,"
-         " getattr(obj, attr.name) == (False if (in_base_types(attr.cls.__name__) and attr.bool_assignment"
-         " and not self.auto_init_attributes) else None))"
-         if False else
-         "implies(not (attr.mult == '0..*' or attr.mult == '1..*') and n_calls('default_ctor') == 0,"
          " getattr(obj, attr.name) is None or (getattr(obj, attr.name) == False and attr.bool_assignment"
          " and not self.auto_init_attributes))"),
         ("C01-type-default-only-with-auto-init",
@@ -135,3 +131,83 @@ Unit(
     ],
     canary="n_calls('default_ctor') == 1",
 )
+
+
+# --------------------------------------------------------------------------
+# bounded battery (never counted as proved): small grammars x inputs against hand-written expectations
+# --------------------------------------------------------------------------
+def _dump(o):
+    if isinstance(o, list):
+        return [_dump(x) for x in o]
+    if hasattr(type(o), "_tx_attrs"):
+        return (type(o).__name__, {k: _dump(getattr(o, k)) for k in type(o)._tx_attrs})
+    return o
+
+
+C01_CASES = [
+    # (grammar, metamodel kwargs, [(input, expected dump or None for rejection)])
+    ("Model: 'a' b=INT? c=ID;", {}, [("a 3 x", ("Model", {"b": 3, "c": "x"})), ("a x", ("Model", {"b": 0, "c": "x"})),
+                                    ("a 3", None)]),
+    ("Model: 'a' b=INT? c=ID;", {"auto_init_attributes": False}, [("a x", ("Model", {"b": None, "c": "x"}))]),
+    ("Model: vals+=INT[','] flag?='!' ;", {}, [("1, 2 ,3 !", ("Model", {"vals": [1, 2, 3], "flag": True})),
+                                              ("1", ("Model", {"vals": [1], "flag": False})), ("", None), ("1,", None)]),
+    ("Model: vals*=INT[','] 'end';", {}, [("end", ("Model", {"vals": []})), ("1,2 end", ("Model", {"vals": [1, 2]})),
+                                         ("1 2 end", None)]),
+    ("Model: 'vals' a+=INT[',' eolterm] ','? b*=INT[','];", {},
+     [("vals 1, 2,\n 3, 4", ("Model", {"a": [1, 2], "b": [3, 4]})), ("vals 1, 2, 3", ("Model", {"a": [1, 2, 3], "b": []}))]),
+    ("Model: 'vals' a*=INT[eolterm] 'end';", {}, [("vals 1 2\n end", ("Model", {"a": [1, 2]})), ("vals 1\n 2 end", None)]),
+    ("Model: (('a' x=INT) ('b' y=INT) ('c' z=INT))#;", {}, [("b 2 a 1 c 3", ("Model", {"x": 1, "y": 2, "z": 3})), ("a 1 b 2", None)]),
+    ("Model: ('a' | 'b')# x=INT;", {}, [("b a 3", ("Model", {"x": 3}))]),
+    ("Model: !'no' name=ID &'!' '!' ;", {}, [("yes !", ("Model", {"name": "yes"})), ("no !", None), ("yes ?", None)]),
+    ("Model: 'x'- name=ID '.'-;", {}, [("x abc .", ("Model", {"name": "abc"}))]),
+    ("Model: a=First | a=Second; First: 'f' v=INT; Second: 's' v=ID;", {},
+     [("f 1", ("Model", {"a": ("First", {"v": 1})})), ("s q", ("Model", {"a": ("Second", {"v": "q"})})), ("f q", None)]),
+    ("Model: items+=Item; Item: Point | Name; Point: x=INT ',' y=INT; Name: n=ID;", {},
+     [("1,2 k 3,4", ("Model", {"items": [("Point", {"x": 1, "y": 2}), ("Name", {"n": "k"}), ("Point", {"x": 3, "y": 4})]}))]),
+    ("Model: a=/\\d+/ b=/(x)(y)/;", {"use_regexp_group": True}, [("12 xy", ("Model", {"a": "12", "b": "xy"}))]),
+    ("Model: a=/'(\\w+)'/;", {"use_regexp_group": True}, [("'q'", ("Model", {"a": "q"}))]),
+    ("Model: a=/'(\\w+)'/;", {}, [("'q'", ("Model", {"a": "'q'"}))]),
+]
+
+
+def _c01_battery():
+    from textx import metamodel_from_str
+    from textx.exceptions import TextXSyntaxError
+
+    bad = []
+    n = 0
+    for grammar, kw, cases in C01_CASES:
+        mm = metamodel_from_str(grammar, **kw)
+        for text, want in cases:
+            n += 1
+            try:
+                got = _dump(mm.model_from_str(text))
+            except TextXSyntaxError:
+                got = None
+            if got != want:
+                bad.append(f"{grammar!r} {kw or ''} on {text!r}: {got!r}, expected {want!r}")
+    return n, bad
+
+
+@extra("C01")
+def peg_battery(tier, seed):
+    n, bad = _c01_battery()
+    res = {"name": "lang.peg-semantics.battery", "backend": "native run of the real parser (bounded stand-in)",
+           "obligations": 0, "discharged": 0, "bounded": True, "bound": f"{len(C01_CASES)} grammars, {n} inputs",
+           "cases": n, "violations": [], "detail": "acceptance and model of small grammars against hand-written expectations"}
+    if bad:
+        res["violations"].append({"unit": "lang.peg-semantics.battery", "kind": "BOUNDED",
+                                  "label": "acceptance-and-model-as-documented", "prop": "C01", "result": "refuted",
+                                  "text": "; ".join(bad[:3]), "where": "battery", "path": [],
+                                  "model": {"failures": bad[:8]}, "native": True, "time": 0, "reason": ""})
+    return res
+
+
+def _replay_c01(model, rec):
+    n, bad = _c01_battery()
+    return bool(bad), "; ".join(bad[:3]) or f"all {n} battery cases as documented"
+
+
+for _u in ("lang.peg-semantics.battery", "lang.visit_assignment.operator", "lang.visit_assignment.modifiers",
+           "lang.visit_repeatable_expr.modifiers", "metamodel._init_obj_attrs.per-attribute"):
+    replay_for(_u)(_replay_c01)
